@@ -254,20 +254,23 @@ pub fn from_bytes_le(bytes: &[u8]) -> Bits {
 /// The fixed matrix of literal format specifications (C14). One list generates both the spec
 /// names and the code applying them, so bva and the integer oracle see the same literal strings.
 macro_rules! fmt_matrix {
-    ($($spec:literal),+ $(,)?) => {
-        pub const FMT_SPECS: &[&str] = &[$($spec),+];
-        pub fn fmt_all<T: Display + Binary + Octal + LowerHex + UpperHex>(v: &T) -> Vec<String> {
+    ($names:ident, $f:ident; $($spec:literal),+ $(,)?) => {
+        pub const $names: &[&str] = &[$($spec),+];
+        pub fn $f<T: Display + Binary + Octal + LowerHex + UpperHex>(v: &T) -> Vec<String> {
             vec![$(format!($spec, v)),+]
         }
     };
 }
 
+// the battery's matrix (every observer is run twice per battery, so this one stays moderate)
 fmt_matrix!(
+    FMT_SPECS, fmt_all;
     "{}", "{:b}", "{:o}", "{:x}", "{:X}", "{:#b}", "{:#o}", "{:#x}", "{:#X}", "{:+}", "{:+x}",
     "{:08}", "{:#010b}", "{:#06x}", "{:+#012o}", "{:>10}", "{:<10x}", "{:^10X}", "{:*^13b}",
     "{:->+9}", "{:_<#8o}", "{:0>6}", "{:1}", "{:40b}", "{:#034b}", "{:^#12o}", "{:+08X}",
     "{:#04x}", "{:.3}", "{:+#}", "{:010o}", "{:~>#7X}", "{:<01}", "{:#066b}",
 );
+
 
 /// Only the five plain specs (used by the lite battery).
 pub fn fmt_lite<T: Display + Binary + Octal + LowerHex + UpperHex>(v: &T) -> Vec<String> {
@@ -287,6 +290,18 @@ pub fn fmt_oracle(bits: &[bool], lite: bool) -> Vec<String> {
     if let Some(x) = val128(bits) {
         let b = if lite { fmt_lite(&x) } else { fmt_all(&x) };
         if a != b {
+            panic!("{}: format oracles disagree on {}", ORACLE_SELF_CHECK, to_str(bits));
+        }
+    }
+    a
+}
+
+/// Oracle strings for slice `sel` of `of` of the complete C14 matrix (see fmtgen.rs).
+pub fn fmt_full_oracle(bits: &[bool], sel: usize, of: usize) -> Vec<(usize, String)> {
+    let big = val(bits);
+    let a = crate::fmtgen::fmt_full_sel(&big, sel, of);
+    if let Some(x) = val128(bits) {
+        if a != crate::fmtgen::fmt_full_sel(&x, sel, of) {
             panic!("{}: format oracles disagree on {}", ORACLE_SELF_CHECK, to_str(bits));
         }
     }
